@@ -210,6 +210,16 @@ func vhAmount(name string) spice.Melange {
 	return m
 }
 
+// vhAmt yields a canonical amount whose currency part is below 2^59, so that sums over the bounded
+// histories never reach the 2^64 overflow edge (that edge is covered by C05 on the primitives and by
+// the dedicated *_overflow harnesses with full-width amounts); carry/borrow edges of the
+// supplementary part stay fully symbolic.
+func vhAmt(name string) spice.Melange {
+	m := spice.Melange{Currency: verifrt.NondetU64(name + ".cur"), SupplementaryCurrency: verifrt.NondetU64(name + ".sup")}
+	verifrt.Assume(verifrt.And(vhCanon(m), m.Currency < 1<<59))
+	return m
+}
+
 // vhWallet yields one of the wallet addresses "A","B","C" symbolically (one symbolic byte).
 func vhWallet(name string) string {
 	s := verifrt.NondetString(name, 1, 1)
@@ -227,4 +237,67 @@ func (l *vhLedger) flows(q string, set []int) (in, out verifrt.Z) {
 		out = verifrt.ZAdd(out, verifrt.ZIte(t.IssuerAddress == q, amt, vhZero()))
 	}
 	return
+}
+
+// ---- shape generator ----
+
+// vhTier reports whether the thorough tier is running (engine: intercepted; natively: env).
+func vhThorough() bool { return verifrt.Thorough() }
+
+// vhShape builds genesis(G -> A: supply) plus n vertices; vertex i takes two parents chosen
+// (enumerated, not solved) among the earlier vertices, left <= right. Issuer, receiver and amount
+// of every vertex are symbolic (wallets A..C, all canonical 64-bit amounts); sealer is the peer P.
+func vhShape(n int) *vhLedger {
+	l := vhGenesisLedger("A", vhAmt("supply"))
+	for i := 1; i <= n; i++ {
+		lp := verifrt.Choose("left"+verifrt.Itoa(i), i)
+		rp := lp + verifrt.Choose("right"+verifrt.Itoa(i), i-lp)
+		var data []byte
+		if i == n && verifrt.Choose("data"+verifrt.Itoa(i), 2) == 1 {
+			data = []byte{7} // the newest vertex may also carry a payload (mixed data+spice transaction)
+		}
+		v := vhTransfer(i, vhWallet("iss"+verifrt.Itoa(i)), vhWallet("rcv"+verifrt.Itoa(i)), vhAmt("amt"+verifrt.Itoa(i)), data, vhPeerAddr, uint64(50+i))
+		l.add(v, lp, rp)
+	}
+	return l
+}
+
+// vhChain builds genesis plus a chain of n symbolic transfers.
+func vhChain(n int) *vhLedger {
+	l := vhGenesisLedger("A", vhAmount("supply"))
+	for i := 1; i <= n; i++ {
+		v := vhTransfer(i, vhWallet("iss"+verifrt.Itoa(i)), vhWallet("rcv"+verifrt.Itoa(i)), vhAmount("amt"+verifrt.Itoa(i)), nil, vhPeerAddr, uint64(50+i))
+		l.add(v, i-1)
+	}
+	return l
+}
+
+// vhCheckpoint stores symbolic checkpointed funds (as a truncation would have): either no entry at
+// all, or an entry for wallets A and B (C stays absent so the "no entry" read path is exercised too).
+func (l *vhLedger) vhCheckpoint() map[string]spice.Melange {
+	cp := map[string]spice.Melange{}
+	if verifrt.Choose("cp", 2) == 0 {
+		return cp
+	}
+	for _, a := range []string{"A", "B"} {
+		{
+			m := vhAmt("cp" + a)
+			if err := l.ab.saveFundsToStorage(a, m); err != nil {
+				panic("vh: checkpoint: " + err.Error())
+			}
+			cp[a] = m
+		}
+	}
+	return cp
+}
+
+// cpZ is the checkpointed amount of wallet q in Z (q symbolic among A..C).
+func vhCpZ(cp map[string]spice.Melange, q string) verifrt.Z {
+	z := vhZero()
+	for _, a := range []string{"A", "B", "C"} {
+		if m, ok := cp[a]; ok {
+			z = verifrt.ZAdd(z, verifrt.ZIte(q == a, vhZ(m), vhZero()))
+		}
+	}
+	return z
 }
